@@ -96,12 +96,23 @@ func shiftOp(op Op, by int) Op {
 func genC11(t *rapid.T) *Case {
 	strict := false
 	rc := RealmCfg{Anonymous: true, RequireLocalAuth: true, Auths: []string{"static"}, Users: c01Users, AllowDisclose: rapid.Bool().Draw(t, "ad"), MetaKill: true, MetaModify: true}
+	if pct(t, 50, "history") {
+		rc.History = []HistCfg{{Topic: "a.b", Limit: 3}, {Topic: "a", Match: "prefix", Limit: 2}}
+	}
 	ra, rb := rc, rc
 	ra.URI, rb.URI = "r1", "r2"
 	c := &Case{Realms: []RealmCfg{ra, rb}}
-	templateB := pct(t, 20, "templateB")
-	if templateB {
+	switch k := uni(t, 100, "realmsource"); {
+	case k < 20:
+		// B is created from the realm template
 		c.Realms = []RealmCfg{ra}
+		tc := rc
+		tc.URI = "template"
+		c.Template = &tc
+	case k < 40:
+		// both realms are created from the one template: they share whatever the
+		// configuration refers to by pointer
+		c.Realms = nil
 		tc := rc
 		tc.URI = "template"
 		c.Template = &tc
@@ -134,6 +145,10 @@ func genC11(t *rapid.T) *Case {
 	gA, gB := mkGen(nA), mkGen(nB)
 	// observers: one catch-all + meta observer per realm
 	c.Ops = append(c.Ops, Op{K: "subscribe", S: 0, URI: "", Mode: "prefix"}, Op{K: "subscribe", S: nA, URI: "", Mode: "prefix"})
+	if len(rc.History) > 0 {
+		// A's session 1 holds the subscriptions whose history is retained (its subscriptions 0 and 1)
+		c.Ops = append(c.Ops, Op{K: "subscribe", S: 1, URI: "a.b"}, Op{K: "subscribe", S: 1, URI: "a", Mode: "prefix"})
+	}
 	aimed := func(t *rapid.T) Op {
 		s := nA + uni(t, nB, "bs")
 		who := uni(t, nA, "victim")
@@ -162,6 +177,19 @@ func genC11(t *rapid.T) *Case {
 	seenA := map[string][]Op{}
 	ops := rapid.SliceOfN(rapid.Custom(func(t *rapid.T) Op {
 		switch k := uni(t, 100, "who"); {
+		case k < 12 && len(rc.History) > 0:
+			// the retained history of A's topics, as A sees it
+			if pct(t, 40, "bpub") {
+				// the same topics are published to in B
+				return Op{K: "publish", S: nA + uni(t, nB, "hbs"), URI: pick(t, []string{"a.b", "a.b", "a.a"}, "hbt"), Args: []V{VStr("from-b")}, Opts: []KV{{"acknowledge", VBool(true)}}, N: 555}
+			}
+			return Op{K: "meta", S: uni(t, nA, "hs"), URI: "wamp.subscription.get_events", Args: []V{VRef(fmt.Sprintf("sub:1:%d", uni(t, 2, "hn")))}}
+		case k < 16:
+			// a kill in A that names neither reason nor message (it may follow a kill_all in B)
+			return Op{K: "meta", S: uni(t, nA, "ks"), URI: pick(t, []string{"wamp.session.kill", "wamp.session.kill_by_authid"}, "kproc"),
+				Args: []V{pick(t, []V{VRef(fmt.Sprintf("sid:%d", uni(t, nA, "kv"))), VStr("u1")}, "karg")}}
+		case k < 20:
+			return Op{K: "meta", S: nA + uni(t, nB, "kbs"), URI: "wamp.session.kill_all", N: 555}
 		case k < 45:
 			op := gA.op(t)
 			switch op.K {
@@ -215,17 +243,12 @@ func containsID(x any, ids map[int64]bool) bool {
 func execC11(t *testing.T, c *Case, trace bool) Verdict {
 	v := Verdict{Kind: "ok", Prop: "C11"}
 	nA := c.P["nA"].Go().(int)
-	// run 1: both realms
-	e1 := NewEngine(c)
-	e1.KeepTrace = trace
-	r1 := &recordOracle{}
-	if viol := e1.Run(r1); viol != nil {
-		return Verdict{Kind: "violation", Prop: "C11", Reason: "run with both realms failed: " + viol.Reason}
-	}
-	// run 2: realm A alone
+	// realm A alone first: whatever process-wide state realm B may leave behind must not be there yet
 	c2 := *c
-	c2.Realms = c.Realms[:1]
-	c2.Template = nil
+	if len(c.Realms) > 0 {
+		c2.Realms = c.Realms[:1]
+		c2.Template = nil
+	} // else: A itself comes from the template; B is simply never created
 	c2.Sess = append([]SessCfg(nil), c.Sess...)
 	for i := nA; i < len(c2.Sess); i++ {
 		c2.Sess[i].NoJoin = true
@@ -242,6 +265,13 @@ func execC11(t *testing.T, c *Case, trace bool) Verdict {
 	r2 := &recordOracle{}
 	if viol := e2.Run(r2); viol != nil {
 		return Verdict{Kind: "violation", Prop: "C11", Reason: "run with realm A alone failed: " + viol.Reason}
+	}
+	// then both realms
+	e1 := NewEngine(c)
+	e1.KeepTrace = trace
+	r1 := &recordOracle{}
+	if viol := e1.Run(r1); viol != nil {
+		return Verdict{Kind: "violation", Prop: "C11", Reason: "run with both realms failed: " + viol.Reason}
 	}
 	if trace {
 		v.Trace = append(append([]string{"=== both realms"}, e1.Trace...), append([]string{"=== realm A alone"}, e2.Trace...)...)
